@@ -14,6 +14,7 @@ sys.path.insert(0, os.path.dirname(os.path.dirname(os.path.abspath(__file__))))
 import numpy as np  # noqa: E402
 
 from checks.common import Check, scenario, sopht_modules  # noqa: E402
+from checks.c11 import _laid_out  # noqa: E402
 
 AX = {"x": 0, "y": 1, "z": 2}  # exponent slot; array axis of coordinate a is  -(1+slot)
 
@@ -84,7 +85,7 @@ def _centre(shape):
 
 
 @scenario
-def scalar_ops(ctx, op, dim):
+def scalar_ops(ctx, op, dim, layout="c"):
     ctx.prefer = "nlsat"
     """operators acting on one scalar field: diffusion flux, outplane curl, filter Laplacians"""
     _, spne, _, _ = sopht_modules()
@@ -103,13 +104,13 @@ def scalar_ops(ctx, op, dim):
             k = spne.gen_diffusion_flux_pyst_kernel_2d(real_t=ctx.real_t, num_threads=False)
         else:
             k = spne.gen_diffusion_flux_pyst_kernel_3d(real_t=ctx.real_t, num_threads=False)
-        out = ctx.array("out", shape)
+        out = _laid_out(ctx, "out", shape, layout)  # result array: any ndarray (C order / window of a padded buffer / strided view)
         k(diffusion_flux=out, field=f, prefactor=ctx.cast(pf))
         lap = sum((p.d(a).d(a)(*pt) for a in "xyz"[:nd]), 0.0)
         ctx.eq("diffusion_flux=prefactor*h^2*laplacian", out[c], pf * h * h * lap)
     elif op == "outplane_curl":
         k = spne.gen_outplane_field_curl_pyst_kernel_2d(real_t=ctx.real_t, num_threads=False)
-        out = ctx.array("out", (2, *shape))
+        out = _laid_out(ctx, "out", (2, *shape), layout)  # result array: any ndarray (C order / window of a padded buffer / strided view)
         k(curl=out, field=f, prefactor=ctx.cast(pf))
         ctx.eq("curl_x=+prefactor*2h*d/dy", out[0][c], pf * 2 * h * p.d("y")(*pt))
         ctx.eq("curl_y=-prefactor*2h*d/dx", out[1][c], -pf * 2 * h * p.d("x")(*pt))
@@ -120,7 +121,7 @@ def scalar_ops(ctx, op, dim):
         spne.gen_laplacian_filter_kernel_3d(filter_order=1, filter_flux_buffer=buf1, field_buffer=buf2, real_t=ctx.real_t, num_threads=False)
         hs = load.HANDLES[n0:n0 + 3]  # created in the order x, y, z
         k = hs["xyz".index(a)].compile()
-        out = ctx.array("out", shape)
+        out = _laid_out(ctx, "out", shape, layout)  # result array: any ndarray (C order / window of a padded buffer / strided view)
         k(filter_flux=out, field=f)
         ctx.eq(f"filter_flux_{a}=-(h^2/4)*d2/d{a}2", out[c], -(h * h / 4) * p.d(a).d(a)(*pt))
     elif op.startswith("filter_callable:"):
@@ -152,7 +153,7 @@ def scalar_ops(ctx, op, dim):
 
 
 @scenario
-def vector_ops(ctx, op, dim):
+def vector_ops(ctx, op, dim, layout="c"):
     ctx.prefer = "nlsat"
     _, spne, _, _ = sopht_modules()
     nd = dim
@@ -171,18 +172,18 @@ def vector_ops(ctx, op, dim):
         curl_exact = [P[2].d("y")(*pt) - P[1].d("z")(*pt), P[0].d("z")(*pt) - P[2].d("x")(*pt), P[1].d("x")(*pt) - P[0].d("y")(*pt)]
     if op == "inplane_curl":
         k = spne.gen_inplane_field_curl_pyst_kernel_2d(real_t=ctx.real_t, num_threads=False)
-        out = ctx.array("out", shape)
+        out = _laid_out(ctx, "out", shape, layout)  # result array: any ndarray (C order / window of a padded buffer / strided view)
         k(curl=out, field=F, prefactor=ctx.cast(pf))
         ctx.eq("curl=prefactor*2h*(dfy/dx-dfx/dy)", out[c], pf * 2 * h * curl_exact[0])
     elif op == "curl":
         k = spne.gen_curl_pyst_kernel_3d(real_t=ctx.real_t, num_threads=False)
-        out = ctx.array("out", (3, *shape))
+        out = _laid_out(ctx, "out", (3, *shape), layout)  # result array: any ndarray (C order / window of a padded buffer / strided view)
         k(curl=out, field=F, prefactor=ctx.cast(pf))
         for i, n in enumerate("xyz"):
             ctx.eq(f"curl_{n}=prefactor*2h*curl_{n}", out[i][c], pf * 2 * h * curl_exact[i])
     elif op == "divergence":
         k = spne.gen_divergence_pyst_kernel_3d(real_t=ctx.real_t, num_threads=False)
-        out = ctx.array("out", shape)
+        out = _laid_out(ctx, "out", shape, layout)  # result array: any ndarray (C order / window of a padded buffer / strided view)
         k(divergence=out, field=F, inv_dx=ctx.cast(pf))
         ctx.eq("divergence=inv_dx*h*div", out[c], pf * h * (P[0].d("x")(*pt) + P[1].d("y")(*pt) + P[2].d("z")(*pt)))
     elif op == "forcing_update":
@@ -216,7 +217,7 @@ def vector_ops(ctx, op, dim):
     elif op == "stretching_flux":
         k = spne.gen_vorticity_stretching_flux_pyst_kernel_3d(real_t=ctx.real_t, num_threads=False)
         W = ctx.array("w", (3, *shape))  # vorticity enters pointwise: arbitrary values
-        out = ctx.array("out", (3, *shape))
+        out = _laid_out(ctx, "out", (3, *shape), layout)  # result array: any ndarray (C order / window of a padded buffer / strided view)
         k(vorticity_stretching_flux_field=out, vorticity_field=W, velocity_field=F, prefactor=ctx.cast(pf))
         for i, n in enumerate("xyz"):
             ex = W[0][c] * P[i].d("x")(*pt) + W[1][c] * P[i].d("y")(*pt) + W[2][c] * P[i].d("z")(*pt)
@@ -306,6 +307,15 @@ def main():
         chk.add(vector_ops, real_t=rt, op="inplane_curl", dim=2)
         for op in ("curl", "divergence", "stretching_flux"):
             chk.add(vector_ops, real_t=rt, op=op, dim=3)
+        if rt == "float64":
+            # memory layout of the result array (the operators accept any ndarray)
+            for lay in ("interior", "strided"):
+                chk.add(scalar_ops, real_t=rt, op="diffusion_flux", dim=2, layout=lay)
+                chk.add(scalar_ops, real_t=rt, op="diffusion_flux", dim=3, layout=lay)
+                chk.add(scalar_ops, real_t=rt, op="outplane_curl", dim=2, layout=lay)
+                chk.add(vector_ops, real_t=rt, op="inplane_curl", dim=2, layout=lay)
+                for op in ("curl", "divergence", "stretching_flux"):
+                    chk.add(vector_ops, real_t=rt, op=op, dim=3, layout=lay)
         for a in "xyz":
             chk.add(scalar_ops, real_t=rt, op=f"filter_laplacian_{a}", dim=3)
         for ftype in ("multiplicative", "convolution"):
@@ -313,7 +323,8 @@ def main():
                 chk.add(scalar_ops, real_t=rt, op=f"filter_callable:{ftype}:{order}:scalar", dim=3)
             chk.add(scalar_ops, real_t=rt, op=f"filter_callable:{ftype}:2:vector", dim=3)
     chk.bounds = ["all polynomials of total degree <= 2 (ENO3: + pure cubic term along the advection axis; sign-change case: linear field x linear velocity)",
-                  "symbolic coefficients, spacing h>0, base point, prefactor; one interior cell of a 5^d (7^d for ENO3) grid (stencils are translation invariant by construction of the IR)"]
+                  "symbolic coefficients, spacing h>0, base point, prefactor; one interior cell of a 5^d (7^d for ENO3) grid (stencils are translation invariant by construction of the IR)",
+                  "result arrays of the flux / curl / divergence / stretching operators in C order, as interior of a padded allocation and as every second cell of a wider buffer"]
     chk.outside = ["boundary cells", "non-polynomial fields (second-order accuracy for smooth fields follows by Taylor's theorem, not re-proved)", "rounding"]
     chk.assumptions = ["exact real arithmetic", "axis convention checked concretely on _init_domain"]
     chk.run()
